@@ -790,6 +790,54 @@ func c10Lemmas(c *Ctx, p *Program) {
 		c.guard(p, "C10.lemma", "a policy whose formula is not well formed (wire index out of range, wire used twice) is rejected", f,
 			GuardSpec{Assumes: []Assume{calleeAssume(latNonNil, -1, "(*abe/cpabe/tkn20/internal/tkn.Formula).wellformed")}})
 	}
+	// tkn20: a decoded attribute key carries a key matrix for every attribute it names (decapsulate looks the
+	// matrices up by the labels of the attribute set and dereferences them without a nil check)
+	{
+		f := p.Func("abe/cpabe/tkn20/internal/tkn", "AttributesKey", "UnmarshalBinary")
+		what := "an attribute key that names an attribute without a key matrix (k3, or k3wild for a wildcard) is rejected"
+		present := func(v ssa.Value, in *ssa.Function) bool {
+			if in != f {
+				return false
+			}
+			// the matrix looked up for a label: k3[label] / k3wild[label], or the ok flag of such a lookup
+			var lk *ssa.Lookup
+			switch x := v.(type) {
+			case *ssa.Lookup:
+				lk = x
+			case *ssa.Extract:
+				if l, ok := x.Tuple.(*ssa.Lookup); ok && x.Index == 0 {
+					lk = l
+				}
+			}
+			if lk == nil {
+				return false
+			}
+			ld, ok := lk.X.(*ssa.UnOp)
+			if !ok {
+				return false
+			}
+			fa, ok := ld.X.(*ssa.FieldAddr)
+			return ok && (fieldName(fa) == "k3" || fieldName(fa) == "k3wild")
+		}
+		var site ssa.Instruction
+		if f != nil {
+			for _, b := range f.Blocks {
+				for _, in := range b.Instrs {
+					if v, ok := in.(ssa.Value); ok && present(v, f) {
+						site = in
+					}
+				}
+			}
+		}
+		switch {
+		case f == nil:
+			c.undecided("C10.lemma", what, "anchor does not resolve", "")
+		case site == nil:
+			c.bad("C10.lemma", fname(f)+": "+what, "the decoder never looks a decoded label up in k3 / k3wild", p.fnPos(f))
+		default:
+			c.guard(p, "C10.lemma", what, f, GuardSpec{Through: site, ValAssumes: []ValAssume{{Name: "matrix found for the label", Val: latNil, Match: present}}})
+		}
+	}
 	// sidh parameter tables
 	for _, pk := range []string{"p434", "p503", "p751"} {
 		e, info := p.varInit("dh/sidh/internal/"+pk, "params")
